@@ -1,9 +1,9 @@
 (* The alias resolution of data types (Model/DataDecl.v).  Proved here: soundness -- an alias is only ever given the kind of
    a declared type its chain of bases reaches: when the transformation answers with kinds, every alias n with kind k comes
    with a path  root -> ... -> n  of alias declarations of the library whose root is a declaration of kind k.
-   NOT proved (the statement is kept in `resolves_complete_statement`): completeness for a sorted library with unique
-   names -- that every alias whose chain reaches a declared type is resolved; it needs the completeness of the search
-   `reach` (fuel = number of nodes suffices), which is validated by the correspondence only. *)
+   Completeness for a library with unique names whose bases come first -- every alias a path connects to a declared type is
+   resolved to that type's kind -- is proved in DataDeclComplete.v, with the completeness of the search `reach` (the fuel
+   suffices) in ReachProofs.v. *)
 From Coq Require Import List NArith Bool Lia.
 From Verif Require Import Base.Text Gen.GenRules Model.Rules Model.DataDecl.
 Import ListNotations.
@@ -149,14 +149,6 @@ Qed.
 Theorem duplicate_declaration_diagnosed s n k p : mem n (d_decl s) = true -> node_data (d_nodes s) n <> None ->
   dstep s (TyDecl n (Some k) p) = inr (P_DeclarationNameDuplicated, p).
 Proof. intros Hm Hn. cbn [dstep]. destruct (node_data (d_nodes s) n); [rewrite Hm; reflexivity | contradiction Hn; reflexivity]. Qed.
-
-(* the full statement, not proved *)
-Definition resolves_complete_statement : Prop :=
-  forall fs n b k, NoDup (flat_map (fun f => match f with TyDecl m _ _ => [m] | TyAlias m _ => [m] end) fs) ->
-    In (TyAlias n b) fs -> chain fs (S (length fs)) n = Some k ->
-    (forall a c, In (TyAlias a c) fs -> exists pre post f, fs = pre ++ f :: post /\ In (TyAlias a c) post /\
-                                         match f with TyDecl m _ _ => m = c | TyAlias m _ => m = c end \/ decl_of fs c = None) ->
-    exists s, dwalk dinit0 fs = inl s /\ alias_kind (resolved s) n = Some k.
 
 (* concrete: the chain  A2 : A1;  A1 : Col;  Col : (r, g);  sorted (bases first) resolves both aliases to an enumeration; written
    aliases first it is answered "not implemented" twice *)
